@@ -11,6 +11,8 @@ import (
 	"verif/internal/carrier"
 	"verif/internal/errparse"
 	"verif/internal/runner"
+
+	"gitee.com/xuesongtao/protoc-go-valid/valid"
 )
 
 // measure of a value: exactly one of the three representations is used.
@@ -403,6 +405,91 @@ func run(c *runner.Ctx) {
 					c.Sample(func() interface{} {
 						return map[string]interface{}{"rule": ruleText, "kind": k.name, "carrier": car, "values": len(k.values)}
 					})
+				}
+			}
+		}
+	}
+	pairs(c, ks)
+}
+
+// pairs: two size rules on one value, collected the way callers collect them (Var's variadic rules, RM.Set called
+// once or twice, an RM literal): each rule is judged on its own, so the number of clauses is the number of violated
+// rules - also when both rules have the same name.
+func pairs(c *runner.Ctx, ks []kindSpec) {
+	single := []string{"ge", "le", "gt", "lt", "eq", "noeq"}
+	forms := []string{"Var(v, r1, r2)", "Map + NewRule().Set(k, r1).Set(k, r2)", "Struct + NewRule().Set(F, r1, r2)", "Map + RM literal"}
+	for _, k := range ks {
+		if k.name != "int" && k.name != "uint8" && k.name != "string" && k.name != "float64" {
+			continue
+		}
+		vals := k.values
+		if len(vals) > 60 {
+			vals = vals[:60]
+		}
+		for _, r1 := range single {
+			for _, r2 := range single {
+				if r1 != r2 && !(r1 == "ge" && r2 == "le") && !(r1 == "noeq" && r2 == "eq") && !(r1 == "lt" && r2 == "gt") {
+					continue
+				}
+				c.Space(fmt.Sprintf("pair/%s+%s/%s", r1, r2, k.name))
+				for b1 := -2; b1 <= 13; b1++ {
+					for b2 := -2; b2 <= 13; b2++ {
+						if !c.Take() {
+							continue
+						}
+						t1, t2 := fmt.Sprintf("%s=%d", r1, b1), fmt.Sprintf("%s=%d", r2, b2)
+						for _, v := range vals {
+							m := measureOf(v)
+							v1, _ := violated(r1, m, b1, b1)
+							v2, _ := violated(r2, m, b2, b2)
+							want := 0
+							if v1 {
+								want++
+							}
+							if v2 {
+								want++
+							}
+							for fi, form := range forms {
+								var err error
+								pan, msg, site := runner.Guard(func() {
+									switch fi {
+									case 0:
+										err = valid.Var(v.Interface(), t1, t2)
+									case 1, 3:
+										mp := reflect.MakeMap(reflect.MapOf(reflect.TypeOf(""), v.Type()))
+										mp.SetMapIndex(reflect.ValueOf("k"), v)
+										rm := valid.RM{"k": t1 + "," + t2}
+										if fi == 1 {
+											rm = valid.NewRule().Set("k", t1).Set("k", t2)
+										}
+										err = valid.Map(mp.Interface(), rm)
+									case 2:
+										p := reflect.New(carrier.TagType(v.Type(), ""))
+										p.Elem().Field(0).Set(v)
+										err = valid.Struct(p.Interface(), valid.NewRule().Set("F", t1, t2))
+									}
+								})
+								c.Done(near(m, b1) || near(m, b2), 1)
+								det := map[string]interface{}{"rules": t1 + " and " + t2, "kind": k.name, "form": form, "value": fmt.Sprint(v.Interface()), "expected_clauses": want}
+								if pan {
+									det["panic"] = msg
+									c.Violation("pair/panic@"+site, det)
+									continue
+								}
+								got := 0
+								if err != nil {
+									got = len(errparse.Split(err.Error()))
+									det["error"] = err.Error()
+								}
+								if got != want {
+									c.Outcome("pair-clause-count-differs")
+									c.Violation(fmt.Sprintf("pair/%s+%s/%s/%d-clauses-expected-%d", r1, r2, kindClass(k.name), got, want), det)
+								} else {
+									c.Outcome(fmt.Sprintf("pair-%d-clauses", want))
+								}
+							}
+						}
+					}
 				}
 			}
 		}
